@@ -14,13 +14,13 @@ pub const MONTH_DAYS: [u32; 12] = [31, 28, 31, 30, 31, 30, 31, 31, 30, 31, 30, 3
 pub const ORIENTATIONS: [(f32, f32, &str); 9] = [
     // (tilt (beta), azimuth (gamma), name)
     (0.0, 0.0, "Horiz."),
-    (90.0, -135.0, "NE"),
-    (90.0, -90.0, "E"),
-    (90.0, -45.0, "SE"),
+    (90.0, -135.0, "NW"),
+    (90.0, -90.0, "W"),
+    (90.0, -45.0, "SW"),
     (90.0, 0.0, "S"),
-    (90.0, 45.0, "SW"),
-    (90.0, 90.0, "W"),
-    (90.0, 135.0, "NW"),
+    (90.0, 45.0, "SE"),
+    (90.0, 90.0, "E"),
+    (90.0, 135.0, "NE"),
     (90.0, 180.0, "N"),
 ];
 
